@@ -5,6 +5,8 @@ package main
 import (
 	"encoding/json"
 	"fmt"
+	"go/ast"
+	"go/token"
 	"os"
 	"os/exec"
 	"path/filepath"
@@ -14,6 +16,7 @@ import (
 	"time"
 
 	"golang.org/x/tools/go/ssa"
+	"golang.org/x/tools/go/ssa/ssautil"
 )
 
 type KnownFinding struct {
@@ -159,7 +162,7 @@ func (r *Run) handleCounterexample(jr *JobResult, ob *ObligResult) int {
 	out, rerr := r.nativeReplay(jr, path)
 	reproduced := false
 	switch ob.Kind {
-	case "assert":
+	case "assert", "bassert":
 		reproduced = strings.Contains(out, "VX-ASSERT-FAILED "+ob.ID+"\n")
 	case "panic":
 		reproduced = strings.Contains(out, "VX-PANIC")
@@ -210,7 +213,7 @@ func (r *Run) writeReplay(jr *JobResult, ob *ObligResult) (string, error) {
 	}
 	rep := map[string]interface{}{
 		"property": r.o.Prop, "harness": jr.Harness, "case": jr.Case, "obligation": ob.ID, "kind": ob.Kind,
-		"source": ob.Pos, "model": model,
+		"source": ob.Pos, "model": model, "stubs": jr.StubNames,
 	}
 	b, _ := json.MarshalIndent(rep, "", " ")
 	path := filepath.Join(dir, fmt.Sprintf("%s_%d_%d.json", jr.Harness, jr.Case+0, n))
@@ -242,6 +245,9 @@ func NativeReplay(ld *Loaded, harness, replayPath string) (string, error) {
 		return "", err
 	}
 	defer os.RemoveAll(tmp)
+	if err := addNativeStubs(ld, ov, replayPath); err != nil {
+		return "", fmt.Errorf("native stubs: %v", err)
+	}
 	// registry test for the harness package
 	var reg strings.Builder
 	fmt.Fprintf(&reg, "package %s\n\nimport \"testing\"\n\nfunc TestZZVxReplay(t *testing.T) {\n\tvxReplayMain(map[string]interface{}{\n", fn.Pkg.Pkg.Name())
@@ -344,7 +350,7 @@ func cmdReplay(args []string) int {
 		fmt.Println("replay error:", err)
 		return 2
 	}
-	if (rep.Kind == "assert" && strings.Contains(out, "VX-ASSERT-FAILED "+rep.Oblig+"\n")) || (rep.Kind == "panic" && strings.Contains(out, "VX-PANIC")) {
+	if ((rep.Kind == "assert" || rep.Kind == "bassert") && strings.Contains(out, "VX-ASSERT-FAILED "+rep.Oblig+"\n")) || (rep.Kind == "panic" && strings.Contains(out, "VX-PANIC")) {
 		fmt.Printf("VIOLATION property=%s replay=%s\n", rep.Prop, file)
 		return 1
 	}
@@ -463,4 +469,135 @@ func nativeVT(ld *Loaded, pkgDir string, names []string) (string, error) {
 	cmd.Env = goEnv()
 	out, err := cmd.CombinedOutput()
 	return string(out), err
+}
+
+// addNativeStubs makes the harness's vxStub replacements effective in the native replay: every
+// stubbed function f is renamed fVxReal in an overlay copy of its source file and a wrapper f is
+// added that calls the registered replacement (package internal/vxhook, overlay only) or the real
+// code. The replay therefore runs the same composition of real code and stubs as the encoding.
+func addNativeStubs(ld *Loaded, ov map[string][]byte, replayPath string) error {
+	b, err := os.ReadFile(replayPath)
+	if err != nil {
+		return nil
+	}
+	var rep struct {
+		Stubs []string `json:"stubs"`
+	}
+	json.Unmarshal(b, &rep)
+	if len(rep.Stubs) == 0 {
+		return nil
+	}
+	byName := map[string]*ssa.Function{}
+	for fn := range ssautil.AllFunctions(ld.Prog) {
+		byName[fn.String()] = fn
+	}
+	type edit struct {
+		off int
+		ins string
+		del int
+	}
+	edits := map[string][]edit{}
+	appendix := map[string]string{}
+	for _, name := range rep.Stubs {
+		fn := byName[name]
+		if fn == nil || fn.Syntax() == nil {
+			continue
+		}
+		fd, ok := fn.Syntax().(*ast.FuncDecl)
+		if !ok {
+			continue
+		}
+		tf := ld.Prog.Fset.File(fd.Pos())
+		file := tf.Name()
+		if strings.Contains(file, "zz_vx") {
+			continue // harness functions are not rewritten
+		}
+		src, ok2 := ov[file]
+		if !ok2 {
+			src, err = os.ReadFile(file)
+			if err != nil {
+				return err
+			}
+		}
+		text := func(a, z token.Pos) string { return string(src[tf.Offset(a):tf.Offset(z)]) }
+		var recvDecl, recvName, recvType string
+		if fd.Recv != nil && len(fd.Recv.List) == 1 {
+			f := fd.Recv.List[0]
+			recvType = text(f.Type.Pos(), f.Type.End())
+			recvName = "vxr"
+			if len(f.Names) == 1 && f.Names[0].Name != "_" {
+				recvName = f.Names[0].Name
+			}
+			recvDecl = "(" + recvName + " " + recvType + ") "
+		}
+		var params, args, ptypes []string
+		i := 0
+		for _, f := range fd.Type.Params.List {
+			ty := text(f.Type.Pos(), f.Type.End())
+			if strings.HasPrefix(ty, "...") {
+				return fmt.Errorf("variadic function %s cannot be stubbed natively", name)
+			}
+			names := f.Names
+			if len(names) == 0 {
+				names = []*ast.Ident{{Name: "_"}}
+			}
+			for range names {
+				pn := fmt.Sprintf("vxp%d", i)
+				i++
+				params = append(params, pn+" "+ty)
+				args = append(args, pn)
+				ptypes = append(ptypes, ty)
+			}
+		}
+		results := ""
+		if fd.Type.Results != nil {
+			results = text(fd.Type.Results.Pos(), fd.Type.Results.End())
+		}
+		hookTypes := ptypes
+		callArgs := args
+		if recvDecl != "" {
+			hookTypes = append([]string{recvType}, ptypes...)
+			callArgs = append([]string{recvName}, args...)
+		}
+		ret := "return "
+		if results == "" {
+			ret = ""
+		}
+		realCall := fd.Name.Name + "VxReal(" + strings.Join(args, ", ") + ")"
+		if recvDecl != "" {
+			realCall = recvName + "." + realCall
+		}
+		hookRet := ""
+		if results != "" {
+			hookRet = " " + results
+		}
+		w := fmt.Sprintf("\nfunc %s%s(%s) %s {\n\tif h, ok := vxhook.Get(%q); ok {\n\t\t%sh.(func(%s)%s)(%s)\n\t\treturn\n\t}\n\t%s%s\n}\n",
+			recvDecl, fd.Name.Name, strings.Join(params, ", "), results, name, ret, strings.Join(hookTypes, ", "), hookRet, strings.Join(callArgs, ", "), ret, realCall)
+		if results != "" {
+			w = fmt.Sprintf("\nfunc %s%s(%s) %s {\n\tif h, ok := vxhook.Get(%q); ok {\n\t\treturn h.(func(%s)%s)(%s)\n\t}\n\treturn %s\n}\n",
+				recvDecl, fd.Name.Name, strings.Join(params, ", "), results, name, strings.Join(hookTypes, ", "), hookRet, strings.Join(callArgs, ", "), realCall)
+		}
+		appendix[file] += w
+		edits[file] = append(edits[file], edit{off: tf.Offset(fd.Name.End()), ins: "VxReal"})
+		if _, seen := ov[file]; !seen {
+			ov[file] = src
+		}
+	}
+	for file, es := range edits {
+		src := ov[file]
+		sort.Slice(es, func(i, j int) bool { return es[i].off > es[j].off })
+		for _, e := range es {
+			src = append(src[:e.off:e.off], append([]byte(e.ins), src[e.off:]...)...)
+		}
+		// import of the hook package right after the package clause
+		txt := string(src)
+		idx := strings.Index(txt, "\npackage ")
+		if strings.HasPrefix(txt, "package ") {
+			idx = -1
+		}
+		nl := strings.Index(txt[idx+1:], "\n") + idx + 1
+		txt = txt[:nl+1] + "\nimport vxhook \"" + modPath + "/internal/vxhook\"\n" + txt[nl+1:] + appendix[file]
+		ov[file] = []byte(txt)
+	}
+	return nil
 }
